@@ -131,7 +131,9 @@ Section Lower.
 End Lower.
 
 (* ---------- ParseMailmap ----------
-   None = Go panics (slice bounds out of range [:-1]): "line[:ltp]" with ltp = strings.LastIndex(line, "<") = -1.
+   As repaired by /repo commit 199beb1: a line that has ">" at its end but no "<" before it (and the same for the
+   canonical part) is skipped.  [fixed = false] is the function before the repair: there "line[:ltp]" with
+   ltp = strings.LastIndex(line, "<") = -1 made Go panic (slice bounds out of range [:-1]); None = that panic.
    strings.TrimSpace is modelled for ASCII white space (\t \n \v \f \r and space); the generated texts
    contain no other Unicode white space (U+0085, U+00A0, U+1680, U+2000..U+200A, U+2028, U+2029, U+202F,
    U+205F, U+3000).  The result is the map in first-insertion order (a later line with the same key
@@ -168,7 +170,7 @@ Definition last_index (c : Z) (s : str) : option nat := last_index_from c s 0 No
 Definition lt_sign : Z := 60%Z.
 Definition gt_sign : Z := 62%Z.
 
-Definition parse_line (mm : list mentry) (line0 : str) : option (list mentry) :=
+Definition parse_line (fixed : bool) (mm : list mentry) (line0 : str) : option (list mentry) :=
   let line := trim_space line0 in
   if is_empty line then Some mm
   else if match line with c :: _ => (c =? 35)%Z | [] => false end then Some mm   (* HasPrefix(line, "#") *)
@@ -179,7 +181,7 @@ Definition parse_line (mm : list mentry) (line0 : str) : option (list mentry) :=
         if negb (Nat.eqb (S p) (length line)) then Some mm
         else
           match last_index lt_sign line with
-          | None => None                                            (* line[:ltp], ltp = -1 *)
+          | None => if fixed then Some mm else None                 (* "if ltp < 0 { continue }"; before: line[:-1] *)
           | Some ltp =>
               let fromEmail := firstn (length line - 1 - S ltp) (skipn (S ltp) line) in
               let line1 := trim_space (firstn ltp line) in
@@ -194,13 +196,13 @@ Definition parse_line (mm : list mentry) (line0 : str) : option (list mentry) :=
                 | Some (S g') =>
                     let l2 := firstn (S g') line1 in
                     match last_index lt_sign l2 with
-                    | None => None                                  (* line[:ltp], ltp = -1 *)
+                    | None => None                                  (* ltp < 0 *)
                     | Some ltp2 => Some (skipn (S ltp2) l2, trim_space (firstn ltp2 l2))
                     end
                 | _ => Some ([], line1)
                 end in
               match to with
-              | None => None
+              | None => if fixed then Some mm else None             (* "if ltp < 0 { continue }"; before: line[:-1] *)
               | Some (toEmail, toName) =>
                   let mm1 := if is_empty fromEmail then mm else sset mm fromEmail (toName, toEmail) in
                   let mm2 := if is_empty fromName then mm1 else sset mm1 fromName (toName, toEmail) in
@@ -209,16 +211,17 @@ Definition parse_line (mm : list mentry) (line0 : str) : option (list mentry) :=
           end
     end.
 
-Fixpoint parse_lines (mm : list mentry) (lines : list str) : option (list mentry) :=
+Fixpoint parse_lines (fixed : bool) (mm : list mentry) (lines : list str) : option (list mentry) :=
   match lines with
   | [] => Some mm
-  | l :: r => match parse_line mm l with
+  | l :: r => match parse_line fixed mm l with
               | None => None
-              | Some mm' => parse_lines mm' r
+              | Some mm' => parse_lines fixed mm' r
               end
   end.
 
-Definition parse_mailmap (contents : str) : option (list mentry) := parse_lines [] (split_lines contents).
+Definition parse_mailmap (contents : str) : option (list mentry) := parse_lines true [] (split_lines contents).
+Definition parse_mailmap_before_fix (contents : str) : option (list mentry) := parse_lines false [] (split_lines contents).
 
 (* ---------- instances used by the replay driver ---------- *)
 Definition gen_mm_ascii (mm_in_order : list mentry) (cs : list commit) : option (list (str * nat) * list str) :=
